@@ -587,6 +587,9 @@ func init() {
 			return Tuple{c, Closure{Native: func(e *Engine, a []Val) Val { return nil }}}
 		},
 		"time.Now": func(e *Engine, fn *ssa.Function, args []Val) Val { return zero(fn.Signature.Results().At(0).Type()) },
+		"reflect.DeepEqual": func(e *Engine, fn *ssa.Function, args []Val) Val {
+			return e.deepEqual(args[0], args[1], 0)
+		},
 		"runtime.Gosched": nop,
 		"runtime.KeepAlive": nop,
 	}
@@ -881,4 +884,81 @@ func (e *Engine) logStubSig(sig *types.Signature, args []Val) Val {
 		t[i] = mk(rs.At(i).Type())
 	}
 	return t
+}
+
+// deepEqual models reflect.DeepEqual on scalar / slice / struct / pointer shapes
+func (e *Engine) deepEqual(a, b Val, depth int) Bool {
+	if depth > 20 {
+		unsup("reflect.DeepEqual: too deep")
+	}
+	switch x := a.(type) {
+	case Iface:
+		y, ok := b.(Iface)
+		if !ok {
+			unsup("reflect.DeepEqual: shape mismatch")
+		}
+		if x.T == nil || y.T == nil {
+			return Bool{C: x.T == nil && y.T == nil}
+		}
+		if !types.Identical(x.T, y.T) {
+			return Bool{}
+		}
+		return e.deepEqual(x.V, y.V, depth+1)
+	case Int, Bool, Flt, Str, Cplx:
+		return e.valEq(a, b)
+	case Agg:
+		y := b.(Agg)
+		r := Bool{C: true}
+		for i := range x.F {
+			r = bAnd(r, e.deepEqual(x.F[i], y.F[i], depth+1))
+		}
+		return r
+	case Slice:
+		y := b.(Slice)
+		if (x.O == nil) != (y.O == nil) || x.Len != y.Len {
+			return Bool{}
+		}
+		r := Bool{C: true}
+		xc, yc := e.cells(x), e.cells(y)
+		for i := range xc {
+			r = bAnd(r, e.deepEqual(xc[i], yc[i], depth+1))
+		}
+		return r
+	case Ptr:
+		y := b.(Ptr)
+		if x.O == nil || y.O == nil {
+			return Bool{C: x.O == nil && y.O == nil}
+		}
+		if x.O == y.O && pathEq(x.P, y.P) {
+			return Bool{C: true}
+		}
+		return e.deepEqual(e.load(x), e.load(y), depth+1)
+	case *Opaque:
+		y, ok := b.(*Opaque)
+		return Bool{C: ok && x == y}
+	case Map:
+		y := b.(Map)
+		if x.M == nil || y.M == nil {
+			return Bool{C: x.M == nil && y.M == nil}
+		}
+		if x.M == y.M {
+			return Bool{C: true}
+		}
+		if len(x.M.idx) != len(y.M.idx) {
+			return Bool{}
+		}
+		r := Bool{C: true}
+		for k, i := range x.M.idx {
+			j, ok := y.M.idx[k]
+			if !ok {
+				return Bool{}
+			}
+			r = bAnd(r, e.deepEqual(x.M.vals[i], y.M.vals[j], depth+1))
+		}
+		return r
+	case nil:
+		return Bool{C: b == nil}
+	}
+	unsup("reflect.DeepEqual on %T", a)
+	return Bool{}
 }
